@@ -25,6 +25,24 @@ import (
 
 var be = binary.BigEndian
 
+// The largest decoded size of a license, and the error for one which announces more than it holds.
+const maxLicenseSize = 1024
+
+var errInvalidLicense = fmt.Errorf("license: the license provided is not valid")
+
+// fieldsFit checks that the two byte fields at the head of an encoded v2 / v3 license (key and
+// salt) do not announce more bytes than there are; the decoder allocates what is announced.
+func fieldsFit(raw []byte) bool {
+	for i := 0; i < 2; i++ {
+		size, n := binary.Uvarint(raw)
+		if n <= 0 || size > uint64(len(raw)-n) {
+			return false
+		}
+		raw = raw[n+int(size):]
+	}
+	return true
+}
+
 // Cipher represents a cipher used by the license type.
 type Cipher interface {
 	DecryptKey(buffer []byte) (security.Key, error)
